@@ -53,6 +53,7 @@ fn main() {
     let prop = args.get(1).map(|s| s.as_str()).unwrap_or("");
     panic::set_hook(Box::new(|_| {}));
     if prop == "_SELF_DELEGATION" { fuzz::self_delegation_child(); return; }
+    if prop == "_EXPIRY_ZONES" { c01::expiry_zone_child(); return; }
     let mut r = Report::new();
     // every witness group runs under catch_unwind: an input on which a witness cannot even set its scenario up (signing, building,
     // serialising unexpectedly fails or panics) is itself a finding, reported as `witness-aborted` with the panic message
@@ -72,7 +73,7 @@ fn main() {
         "C05" => vec![("c05", c10::run_c05), ("c10", c10::run_c10), ("c09", c09::run_c09), ("gen", gen::run)],
         "C11" => vec![("c11", c09::run_c11), ("c12", c12::run), ("gen", gen::run)],
         "C10" => vec![("c10", c10::run_c10)],
-        "C12" => vec![("c12", c12::run)],
+        "C12" => vec![("c12", c12::run), ("c04", c01::run_c04)],
         "MODEL" => vec![("model", model::run_differential)],
         "GEN" => vec![("gen", gen::run)],
         "C13" => vec![("c13", c13::run), ("model", model::run_differential)],
